@@ -137,8 +137,10 @@ def gen_cases(seed, tier, purposes):
                         if any(v > C.hi(ity) for v in ix): ity = 'i64'
                         seq.append('at:0:%s:%s:%s' % (f, ity, C.fmt(list(ix))))
                 wix = rnd.choice(idxs); val = rnd.randint(1, 999)
-                seq += ['wr:0:%d:%s' % (val, C.fmt(list(wix))), 'df']
-                cases.append(VCase(inst, es, ss, pv, seq, 'C03', dict(h=h, write=[list(wix), val])))
+                if acc == 'sf': seq += ['df']; cases.append(VCase(inst, es, ss, pv, seq, 'C03', dict(h=h)))
+                else:
+                    seq += ['wr:0:%d:%s' % (val, C.fmt(list(wix))), 'df']
+                    cases.append(VCase(inst, es, ss, pv, seq, 'C03', dict(h=h, write=[list(wix), val])))
         # ---------------------------------------------------------------- C13: a valid mapping (broadcast layout, span 1) whose extents multiply beyond
         #                                                                  the index type: size() is formed in size_type and may wrap, empty() must not
         if 'C13' in purposes and kind == 'ubc':
